@@ -5,7 +5,9 @@ import itertools
 
 from .. import core
 from ..core import Prop, Violation
-from ._coord import CoordMixin, gen_cfg, gen_exec, gen_multi_kill, CP_SCRIPTS
+from ._coord import CoordMixin, gen_cfg, gen_exec, gen_multi_kill, gen_ended_in_callback, CP_SCRIPTS
+
+FINDING = "C14-work-after-kill-in-g1-checkpoint"
 
 
 class C14(CoordMixin, Prop):
@@ -17,18 +19,24 @@ class C14(CoordMixin, Prop):
     thorough_budget = 40000
     all_branches = ["cell:ok", "cell:blocked", "cell:post-raise", "x:blocked", "x:unknown", "x:reentrant", "x:preempted", "x:cp0-fail", "x:cp1-fail", "x:cp2-fail",
                     "x:cp3-fail", "x:work-raise", "x:val-fail", "x:commit", "acq:acquired", "acq:blocked",
-                    "acq:reentrant", "acq:preempted", "rel:0", "rel:1", "wd:timeout", "wd:deadlock", "wd:starvation", "x:killed-in-work"]
+                    "acq:reentrant", "acq:preempted", "rel:0", "rel:1", "wd:timeout", "wd:deadlock", "wd:starvation", "x:killed-in-work",
+                    "x:cp-act", "x:val-act", "x:work-while-unlisted"]
     assumptions = [
         "an operation id is not started again while an operation with that id is still active (id reuse replaces "
         "the context object and is outside the property's quantifier; the oracle stops judging a history there)",
-        "callbacks (checkpoint conditions, work_fn, validate_fn) return or raise; from inside work_fn only the kill "
-        "paths named by the property are exercised (kill_operation, shutdown, watchdog.execute, run_maintenance)",
+        "callbacks (checkpoint conditions, work_fn, validate_fn) return or raise; from inside a callback only the kill "
+        "paths named by the property are exercised (kill_operation, shutdown, watchdog.execute, run_maintenance), at "
+        "every one of the six callback positions",
         "controller calls are made only for operations listed in active_operations; a resource id is registered once",
         "virtual clock: controller.datetime / watchdog.datetime are substituted; created_at / phase_entered_at of a "
         "new context are set to the virtual time by a wrapper around controller.start_operation",
     ]
     trusted_modelled = ["modelled, not verified: ResourceLock, CellCycleController, Watchdog, PriorityInheritance, "
                         "CoordinationSystem.execute_operation as Operon.Coord.* (Model/Coord*.lean)"]
+
+    def __init__(self):
+        super().__init__()
+        self._attr = {}
 
     def extract(self, ctx):
         from ..extract import py2lean_coord
@@ -70,6 +78,8 @@ class C14(CoordMixin, Prop):
     def generate(self, rng, tier, n):
         for i in range(max(20, n // 40)):
             yield gen_multi_kill(rng)
+        for i in range(max(40, n // 12)):
+            yield gen_ended_in_callback(rng)
         # timeout boundaries: below / at / above each limit
         for i in range(max(6, n // 100)):
             L = rng.choice([1, 5, 10])
@@ -117,7 +127,17 @@ class C14(CoordMixin, Prop):
                   ("bbbb", "k1:raise.A0", "raise.V0"), ("bbbb", "n:ok.N", "no"), ("bbbb", "n:ok.N", "raise.V0"),
                   ("bbbb", "n:ok.N", "yes"), ("bbbb", "n:ok.Z", "no"), ("bbbb", "n:ok.F", "raise"), ("bbbb", "n:ok.L", "absent"),
                   ("bbnb", "n:ok.N", "no"), ("bbbb", "n:ok", "raise.SX"), ("bbbb", "n:raise.SX", "yes"),
-                  ("bbbb", "k1:raise.SX", "raise.SX")]
+                  ("bbbb", "k1:raise.SX", "raise.SX"), ("bbbb", "n:ok.X", "yes"), ("bbbb", "n:ok.X", "no"),
+                  ("bbbb", "n:ok.X", "raise.V0"), ("bbbn", "n:ok.X", "absent"), ("bbbb", "k1:ok.X", "yes"),
+                  ("bbbb", "n:ok.B", "yes"), ("bbbb", "n:ok.Q", "no"),
+                  # a kill / shutdown / watchdog run fired from inside a checkpoint condition or validate_fn
+                  ("bbbb@0k1", "n:ok", "yes"), ("bbbb@0k1", "n:ok", "no"), ("bbbb@0k1", "n:raise", "yes"),
+                  ("bbbb@0s", "n:ok", "raise.V0"), ("bbbb@0w:4", "n:ok", "yes"), ("bnbb@0k1", "n:ok", "yes"),
+                  ("nbbb@0k1", "n:ok", "yes"), ("bbbb@0k1", "k1:ok", "yes"), ("bbbn@0k1", "n:ok", "absent"),
+                  ("bbbb@1k1", "n:ok", "yes"), ("bbbb@1k2", "n:ok", "yes"), ("bbbb@2k1", "n:ok", "no"),
+                  ("bbbb@3k1", "n:ok", "yes"), ("bbbb@3s", "n:ok", "absent"), ("bbbb", "n:ok", "yes@k1"),
+                  ("bbbb", "n:ok", "no@s"), ("bbbb", "n:ok", "raise@k1"), ("bbbb@0k1@2k1", "n:ok", "yes@k1"),
+                  ("bbbb@0k2", "n:ok", "yes@k3")]
         posts = [None, "ok", "raise.V0"] if tier == "quick" else [None, "ok", "notag", "raise", "raise.V0"]
         holders = ["free", "held-low", "held-high", "held-twice"]
         reqs = [r for k in range(0, L + 1) for r in itertools.product([1, 2], repeat=k)]
@@ -126,6 +146,10 @@ class C14(CoordMixin, Prop):
             for h1, h2 in itertools.product(holders, repeat=2):
                 for pre in pres:
                     for (cps, work, val), post in itertools.product(faults, posts):
+                        if ("@" in cps or "@" in val or work.endswith((".X", ".B", ".Q"))) and \
+                                (h1, h2) not in (("free", "free"), ("held-low", "free"), ("free", "held-high"),
+                                                 ("held-high", "held-twice")):
+                            continue          # callback acts / unusual results: fewer holder patterns
                         if post is not None and (h1, h2) not in ((("free", "free"),) if tier == "quick" else
                                                                  (("free", "free"), ("held-low", "free"), ("free", "held-high"))):
                             continue          # the cell wrapper adds nothing lock-specific: fewer holder patterns
@@ -149,6 +173,22 @@ class C14(CoordMixin, Prop):
 
     # --- oracle: the property text on the implementation's observations ------------------------------------
     def oracle(self, case, obs, extra):
+        out = self._oracle(case, obs, extra)
+        # open finding: the operation was ended from inside its own G1 -> S checkpoint callback (observed: it was no
+        # longer in active_operations when that callback returned) and work_fn then ran without the resources.  Only
+        # that clause, on that line, is attributable.
+        ok = bool(out)
+        for v in out:
+            info = extra[v.at].get("info", {}) if 0 <= v.at < len(extra) else {}
+            if not (v.clause == "work_only_with_all_resources" and 1 in info.get("ended_in_cp", [])):
+                ok = False
+        self._attr[tuple(case["lines"])] = ok
+        return out
+
+    def trigger(self, case):
+        return FINDING if self._attr.get(tuple(case["lines"])) else None
+
+    def _oracle(self, case, obs, extra):
         out = []
         started = set()          # ids that may legitimately be active
         prev = None
@@ -184,8 +224,11 @@ class C14(CoordMixin, Prop):
                     if w == op or any(b == op for b, _ in deps):
                         out.append(Violation("no_edge_after_exit", f"no dependency edge mentions op{op}",
                                              f"{w}->{deps}", idx))
-                # 2. resources never obtained are untouched
-                act = t[5].split(":")[0]
+                # 2. resources never obtained are untouched (what a callback does to OTHER operations from inside —
+                #    kill, shutdown, watchdog — legitimately frees their locks)
+                acts = [t[5].split(":")[0]] + [e[1:].split(":")[0] for e in t[4].split("@")[1:]] \
+                    + [e.split(":")[0] for e in t[6].split("@")[1:]]
+                act = "n" if all(a == "n" for a in acts) else "some"
                 if prev is not None:
                     req = [] if t[3] in ("-", "none") else t[3].split(",")
                     prio = int(t[2])
@@ -219,14 +262,15 @@ class C14(CoordMixin, Prop):
                         out.append(Violation("validate_only_after_work", "work completed before validate_fn", f"{log}", idx))
                 # 5. success only if both succeeded — at every layer that reports a success flag
                 wok = t[5].split(":")[1].startswith("ok")
-                vok = t[6] in ("absent", "yes")
-                if t[6] != "absent" and "work:1" in log and "cp2:1" in log and not any(e.startswith("val:") for e in log):
+                vtok = t[6].split("@")[0]
+                vok = vtok in ("absent", "yes")
+                if vtok != "absent" and "work:1" in log and "cp2:1" in log and not any(e.startswith("val:") for e in log):
                     out.append(Violation("validation_runs_after_completed_work",
                                          "validate_fn is called once work completed and the S checkpoint passed, whatever work returned",
                                          f"work={t[5]} log={log}", idx))
                 for layer, flag in (("CoordinationResult", info.get("coord_success")),
                                     ("CellExecutionResult" if k == "cell" else "result", info.get("success"))):
-                    if flag and not (wok and vok and "work:1" in log and (t[6] == "absent" or "val:1" in log)):
+                    if flag and not (wok and vok and "work:1" in log and (vtok == "absent" or "val:1" in log)):
                         out.append(Violation("success_iff_both", "success=False",
                                              f"{layer}.success=True with work={t[5]} validate={t[6]} log={log}", idx))
                 if k == "cell" and info.get("cell_success") and info.get("coord_success") is False:
